@@ -75,7 +75,7 @@ def run(ctx):
     st0 = _mempool.run_scenario(ctx, binary, "C26", "rbf", "MC_rbf0_q.cfg", "MU_incr0.cfg", nontrivial=nontrivial)
     # package replacements (1-parent-1-child): the package form of the conditions, small scope
     pk = lambda p: any(s["a"][0] == "pkg" and s["r"]["evict"] for s in p["steps"])
-    stp = _mempool.run_scenario(ctx, binary, "C26", "pkg", "MC_pkg_c26.cfg" if ctx.tier == "quick" else "MC_pkg_t.cfg", "MU_std.cfg", nontrivial=pk)
+    stp = _mempool.run_scenario(ctx, binary, "C26", "pkg", "MC_pkg_c26.cfg", "MU_std.cfg", nontrivial=pk)
     _mempool.need(stp, [("pkg", "ok"), ("pkg", "package RBF failed: insufficient anti-DoS fees")], "C26 packages")
     if not any(s["a"][0] == "pkg" and len(s["r"]["evict"]) >= 1 and s["r"]["ok"] for p in stp["paths"] for s in p["steps"]):
         raise vflib.InfraError("vacuity: no accepted package replacement in the bounded model")
